@@ -1,7 +1,9 @@
 """C09 Object-store server keeps one version chain under concurrent clients."""
 from cloud_family import *
 
-INV9 = ["OneChildPerParent", "AckedOnChain", "ReadsOnChain"]
+# RetainedComplete: an accepted version "stays on the chain reachable from latest" only while
+# its object is stored (nothing in these families is old enough to be cleaned up)
+INV9 = ["OneChildPerParent", "AckedOnChain", "ReadsOnChain", "RetainedComplete"]
 
 
 def run(tier):
@@ -51,9 +53,10 @@ def run(tier):
     v.distinct += len(sch)
     cconform(v, wd, "3c-paged-sim", gp, sch, invs=INV9, page_size=1)
     # situations random schedules rarely reach: a reader probing candidates that are not the
-    # latest version (incl. a single, uncommitted candidate), a lost compare-and-swap
+    # latest version (incl. a single, uncommitted candidate), a lost compare-and-swap (also
+    # one lost while latest moved on by two versions)
     gs = cconsts(Clients={"c1", "c2", "c3"}, Ops={"AV", "GC"}, MaxOps=2, MaxVer=4)
-    for sit in ("probe1", "probe2", "lostcas"):
+    for sit in ("probe1", "probe2", "lostcas", "lostcas2"):
         w = csituations(wd, "sit-" + sit, gs, sit, limit=40 if thorough else 12)
         v.distinct += len(w)
         cconform(v, wd, "sit-" + sit, gs, w, invs=INV9)
